@@ -15,7 +15,7 @@ add-then-remove of a new key inside one block) - history dependent.
 import re
 
 from facts import short_name
-from kinds import (comparisons, k1_callers, on_all_success_paths, error_cut)
+from kinds import (rel, comparisons, k1_callers, on_all_success_paths, error_cut)
 
 CRATES = ["astria_sequencer.lib"]
 S = "astria_sequencer::"
@@ -88,7 +88,7 @@ def v1(prog, rep):
         rep.check(any(body.must_pass_block(r.bb, c.bb) for r in rem), "V1", "count-1=>remove",
                   "the stored count is decremented without a validator entry being removed", c.where())
     # removal only on the power == 0 edge
-    pw = [c for c in comparisons(body) if c.op == "Eq" and c.a == "self.action.power" and c.b == "const(0)"]
+    pw = rel(body, "Eq", r"^self\.action\.power$", r"^const\(0\)$")
     rep.check(bool(pw) and all(body.must_pass_edges(set(pw[0].true_edges), r.bb) for r in rem) and
               all(body.must_pass_edges(set(pw[0].false_edges), p.bb) for p in putv), "V1",
               "power==0<=>remove", "removal/put are not selected by `power == 0`", body.describe())
@@ -123,10 +123,8 @@ def v1(prog, rep):
             "is_some(get_validator(state,self.action.verification_key)"), "V1", "meta.exists<-store",
             f"exists comes from {f.get('validator_already_exists', '')[:80]}", f"{g.file}:{line}")
         # on the power==0 edge, reaching this block requires count > 1 and exists
-        pw = [c for c in comparisons(g) if c.op == "Eq" and c.a == "self.action.power"
-              and c.b == "const(0)"]
-        gt = [c for c in comparisons(g) if c.op == "Gt" and c.a.startswith("get_validator_count(state)")
-              and c.b == "const(1)"]
+        pw = rel(g, "Eq", r"^self\.action\.power$", r"^const\(0\)$")
+        gt = rel(g, "Gt", r"^get_validator_count\(state\)", r"^const\(1\)$")
         ex = switch_on(g, r"^is_some\(get_validator\(state,self\.action\.verification_key\)")
         # choose the post-aspen power switch: the one that dominates the Metadata block partially
         ok = False
